@@ -3,6 +3,7 @@
    write path holds (reserved, dirty, published, being retired) on top of the free-space manager. *)
 From Coq Require Import List NArith Bool.
 From Feox Require Import Gen.Constants Model.FreeSpace Proofs.FreeSpaceProofs Proofs.OwnershipProofs.
+From Feox Require Model.FailPath Proofs.FailPathProofs.
 Import ListNotations.
 Local Open Scope N_scope.
 
@@ -45,12 +46,43 @@ Print Assumptions no_leak.
 
 Theorem emptied_device_is_fresh :
   forall o, OInv o -> owned o = [] ->
-  runs (ofs o) = [(FEOX_DATA_START_BLOCK, dev_sectors (ofs o) - FEOX_DATA_START_BLOCK)].
+  runs (ofs o) = [(FEOX_DATA_START_BLOCK, dev_sectors (ofs o) - FEOX_DATA_START_BLOCK)]
+(* the link from the write path to the ledger, through device failures (Model/FailPath.v): on a
+   fresh device, after any sequence of inserts and flushes and whatever device calls fail, every
+   block of the data area is free exactly when no queued entry's reservation (clean, dirty or
+   quarantined) and no published record covers it, no block is covered twice, and the disk-usage
+   counter is the number of covered blocks *).
 Proof. exact emptied_is_fresh. Qed.
 Check emptied_device_is_fresh :
   forall o, OInv o -> owned o = [] ->
-  runs (ofs o) = [(FEOX_DATA_START_BLOCK, dev_sectors (ofs o) - FEOX_DATA_START_BLOCK)].
+  runs (ofs o) = [(FEOX_DATA_START_BLOCK, dev_sectors (ofs o) - FEOX_DATA_START_BLOCK)]
+(* the link from the write path to the ledger, through device failures (Model/FailPath.v): on a
+   fresh device, after any sequence of inserts and flushes and whatever device calls fail, every
+   block of the data area is free exactly when no queued entry's reservation (clean, dirty or
+   quarantined) and no published record covers it, no block is covered twice, and the disk-usage
+   counter is the number of covered blocks *).
 Print Assumptions emptied_device_is_fresh.
+
+Theorem ownership_partition_through_failures :
+  forall fault d f cs,
+  d < U64 -> initialize d = FOk f ->
+  let st := FailPathProofs.fcalls fault (FailPath.finit f) cs in
+  let owned := FailPath.exts_of (FailPath.f_queue st) ++ map snd (FailPath.f_durable st) in
+  Inv (FailPath.f_fs st) /\
+  (forall b, (FailPathProofs.cnt b owned <= 1)%nat) /\
+  (forall b, DS <= b < dev_sectors (FailPath.f_fs st) -> (free (FailPath.f_fs st) b <-> FailPathProofs.cnt b owned = O)) /\
+  FailPath.f_usage st = FailPathProofs.sum_blocks owned.
+Proof. exact FailPathProofs.ownership_partition_through_failures. Qed.
+Check ownership_partition_through_failures :
+  forall fault d f cs,
+  d < U64 -> initialize d = FOk f ->
+  let st := FailPathProofs.fcalls fault (FailPath.finit f) cs in
+  let owned := FailPath.exts_of (FailPath.f_queue st) ++ map snd (FailPath.f_durable st) in
+  Inv (FailPath.f_fs st) /\
+  (forall b, (FailPathProofs.cnt b owned <= 1)%nat) /\
+  (forall b, DS <= b < dev_sectors (FailPath.f_fs st) -> (free (FailPath.f_fs st) b <-> FailPathProofs.cnt b owned = O)) /\
+  FailPath.f_usage st = FailPathProofs.sum_blocks owned.
+Print Assumptions ownership_partition_through_failures.
 Example partition_unfolds : forall o, OInv o ->
   forall b, FEOX_DATA_START_BLOCK <= b < dev_sectors (ofs o) -> (free (ofs o) b <-> ~ owned_blk o b).
 Proof. intros o [_ H _ _]. exact H. Qed.
